@@ -211,6 +211,45 @@ class ProgRun:
         return self
 
 
+def partial_part_targets(prog):
+    """number of assignment targets that apply a part select to a *whole* signal of which the assigning (module, domain) owns
+    only some bits (its reachable bits all lie inside those) - the construct behind open finding F28"""
+    n = [0]
+
+    def tgt(t, m, dom):
+        while t[0] in ("as_signed", "as_unsigned"):
+            t = t[1]
+        if t[0] == "part" and t[1][0] == "sig":
+            si = t[1][1]
+            w = prog["signals"][si]["width"]
+            own = sum(hi - lo for (s_, lo, hi, d_) in m["owns"] if s_ == si and d_ == dom)
+            if own < w:
+                n[0] += 1
+
+    def stmts(lst, m):
+        for st in lst:
+            if st[0] == "assign":
+                tgt(st[2], m, st[1])
+            elif st[0] == "if":
+                for c, b in st[1]:
+                    stmts(b, m)
+                if st[2]:
+                    stmts(st[2], m)
+            elif st[0] == "switch":
+                for pp, b in st[2]:
+                    stmts(b, m)
+            elif st[0] == "fsm":
+                for nm, b in st[1]["states"]:
+                    stmts(b, m)
+
+    def mods(m):
+        stmts(m["stmts"], m)
+        for sub in m["subs"]:
+            mods(sub)
+    mods(prog["top"])
+    return n[0]
+
+
 def count_features(prog):
     """static probes: which language features the program uses"""
     import json
@@ -230,6 +269,9 @@ def count_features(prog):
         feats["reset_less_signal"] = 1
     if any(s["width"] == 0 for s in prog["signals"]):
         feats["zero_width"] = 1
+
+    if partial_part_targets(prog):
+        feats["part_select_on_partly_owned_signal"] = 1
 
     def nmods(m):
         return 1 + sum(nmods(s) for s in m["subs"])
